@@ -217,7 +217,11 @@ CLAIMS = {
         'text': 'C13_locations (every accessor with a location carries a location of the document holding exactly the returned value, for '
                 'all paths and documents), C13_get_after_set and C13_set_frame (lens laws: Set writes that location and nothing '
                 'disjoint from it). Tie: for every accessor of generated paths a sentinel is Set on a fresh copy, the document is '
-                'searched/diffed and the location compared with the model\'s; Set=nil exactly for root and function outputs.',
+                'searched/diffed and the location compared with the model\'s; Set=nil exactly for root and function outputs. From the path TEXT '
+                '(AccText.v): C13_accessor_from_text — the path spelling a location (names in any spelling, decimal indexes) returns exactly one '
+                'settable accessor with that location, holding the returned value, written value read back, disjoint locations untouched; '
+                'C13_function_outputs_from_text — results of steps followed by filter functions carry no location. The harness sends '
+                'location-spelling texts (driver confirms Coq chain_path) and expects exactly that location from the sentinel probe.',
         'note': NOTE_COMMON + EVAL_HYP + ' Documents are trees (no shared sub-map). Members of a function output are outside the property.',
         'technique': T_EVAL + ' + lens laws + set-and-diff oracle'},
     'C20': {
